@@ -1,6 +1,6 @@
 SPECIFICATION SpecC
 CONSTANTS Names <- Names2 Depth = 3 Vals <- ValsQ Sep = 46 Design = "list" Base <- BaseAB MaxSlots = 4
-  Strs <- NoStrs Seps <- NoStrs Asgs <- NoStrs Elems <- NoStrs
+  Ends <- EndsQ Strs <- NoStrs Seps <- NoStrs Asgs <- NoStrs Elems <- NoStrs
 CONSTRAINT Bound
 VIEW ViewC
 INVARIANTS Refines PrefixClosed
